@@ -158,7 +158,7 @@ PROPS = {
     },
     "C08": {
         "engine": "queue",
-        "level_text": 'Lean 4 theorems C08.exactly_once_in_order / per_producer_order / worker_alive_while_handle_alive / worker_makes_progress / quiescent_schedule_is_a_run / quiescent_schedule_settles / predicate_accepts_every_model_history: an inductive invariant of the queuing-sink LTS over all interleavings of producers, clones, drops, worker steps and wrapped-sink outcomes; liveness as progress + bounded worker runs; the executable per-operation predicates (Check/Queue.lean) are proved to accept every history as the model runs it (no alarm can be an artefact of a predicate).',
+        "level_text": 'Lean 4 theorems C08.exactly_once_in_order / per_producer_order / worker_alive_while_handle_alive / worker_makes_progress / quiescent_schedule_is_a_run / quiescent_schedule_settles / predicate_accepts_every_model_history / predicate_accepts_every_closed_model_history: an inductive invariant of the queuing-sink LTS over all interleavings of producers, clones, drops, worker steps and wrapped-sink outcomes; liveness as progress + bounded worker runs; the executable per-operation predicates (Check/Queue.lean) are proved to accept every history as the model runs it (no alarm can be an artefact of a predicate).',
         "level_note": _Q_NOTE,
         "technique": 'Lean 4 proof (inductive invariant of a labelled transition system over all schedules; progress + termination measure) + sequentialised correspondence + stress',
         "trusted_base": _Q_TB,
